@@ -20,6 +20,8 @@ pub enum Container {
     Header5,
     /// no header: raw decoder API
     Raw,
+    /// raw decoder object constructed for another size, then reset(Some(size))
+    RawReset { init: u64 },
 }
 
 #[derive(Clone, Debug, Hash, Serialize, Deserialize)]
@@ -50,7 +52,7 @@ pub struct C01;
 
 pub fn effective_dict(container: Container, dict: u32) -> u64 {
     match container {
-        Container::Raw => dict as u64,
+        Container::Raw | Container::RawReset { .. } => dict as u64,
         _ => (dict as u64).max(4096),
     }
 }
@@ -74,6 +76,7 @@ fn abs_strategy(max_ops: usize, max_run: u16, max_out: usize) -> impl Strategy<V
         3 => (Just(Container::Header13), dict_header()),
         1 => (Just(Container::Header5), dict_header()),
         4 => (Just(Container::Raw), dict_raw()),
+        1 => ((0u64..40).prop_map(|init| Container::RawReset { init }), dict_raw()),
     ];
     (
         props_any(),
@@ -347,6 +350,16 @@ impl Property for C01 {
                     &ReaderKind::Slice,
                     &Io::default(),
                 ),
+                Container::RawReset { init } => sut::raw_lzma_reused(
+                    c.props,
+                    dict,
+                    init,
+                    size,
+                    false,
+                    &enc.payload,
+                    &ReaderKind::Slice,
+                    &Io::default(),
+                ),
             }
         };
         st.eval();
@@ -361,6 +374,7 @@ impl Property for C01 {
             Container::Header13 => "container:Header13",
             Container::Header5 => "container:Header5",
             Container::Raw => "container:Raw",
+            Container::RawReset { .. } => "container:Raw(reset to this size)",
         });
         if sh.n_copy > 0 {
             st.nontrivial(c);
@@ -399,12 +413,13 @@ impl Property for C01 {
         }
 
         // ---- metamorphic (a): header dict < 4096 behaves as 4096
-        if c.container != Container::Raw && c.dict < 4096 && sh.max_dist > c.dict as u64 {
+        let is_raw = matches!(c.container, Container::Raw | Container::RawReset { .. });
+        if !is_raw && c.dict < 4096 && sh.max_dist > c.dict as u64 {
             st.class("metamorphic:dict<4096-clamped");
         }
         // ---- metamorphic (b): any other declared dictionary >= max distance used
         let lo = sh.max_dist.max(1);
-        let lo = if c.container == Container::Raw { lo } else { lo.max(1) };
+        let lo = if is_raw { lo } else { lo.max(1) };
         let hi = (expected.len() as u64 * 2 + 64).max(lo).min(u32::MAX as u64);
         let d2 = if c.redeclare_sel == 0xFFFF {
             u32::MAX
